@@ -98,6 +98,13 @@ def scan_task(task):
                     for kw in v.keywords:
                         if kw.arg == 'default' and isinstance(kw.value, (ast.List, ast.Dict, ast.Set, ast.Call)):
                             shared.append(ast.unparse(node.target))
+            if isinstance(node, ast.Assign):
+                # an unannotated class attribute is not a dataclass field: one object for all instances (and all copies)
+                v = node.value
+                container = isinstance(v, (ast.List, ast.Dict, ast.Set, ast.ListComp, ast.DictComp, ast.SetComp)) or (
+                    isinstance(v, ast.Call) and (ast.unparse(v.func).split('[')[0] in ('list', 'dict', 'set', 'deque', 'defaultdict', 'Counter')))
+                if container:
+                    shared += [ast.unparse(t) for t in node.targets]
     globals_written = []
     for f in fns:
         for node in ast.walk(f):
